@@ -1,6 +1,7 @@
 import AvroModel.Props.C13
 import AvroModel.Props.C09
 import AvroModel.Props.C07
+import AvroModel.Lemmas.EndToEnd
 /-!
 # C01 — Encode-then-read round trip preserves every record
 
@@ -15,6 +16,8 @@ The end-to-end statement is the composition of three proved layers:
   are exactly-decodable record encodings delivers all records, in order, and succeeds; the
   destination is zeroed before every record, so a null following a non-null in the same field
   reads back as null.
+`file_roundtrip` composes the last two formally: the bytes the encoder model writes for any call
+history are read back by the container-reader model as exactly the written records.
 The differential end-to-end run (`E2E` harness) exercises the three layers together on the real code.
 -/
 namespace Avro.C01
@@ -29,6 +32,19 @@ theorem record_roundtrip (c : Codec) (s : ASchema) (hcf : CodecFor c s) (n n' m 
     (he : encode (canonPlan v) s v = some bs') :
     ReadSpec (read env n' c (bs ++ rest) dst) (ofAvro env m' c v dst) rest :=
   C13.write_then_read env c s hcf n n' m m' g dst bs bs' rest v hw ht he
+
+/-- the same fact in the shape `file_roundtrip` asks of a record decoder: at every step budget that
+suffices for the record, the written bytes decode exactly to the written datum's value -/
+theorem record_exact (c : Codec) (s : ASchema) (hcf : CodecFor c s) (n n' m m' : Nat) (g dst g' : GoVal) (bs bs' rest : Bytes) (v : Value)
+    (hw : write env n c g = some bs) (ht : toAvro env (omits env) m c g = some v)
+    (he : encode (canonPlan v) s v = some bs') (hf : ofAvro env m' c v dst = .ok g')
+    (hnf : read env n' c (bs ++ rest) dst ≠ .fuel) :
+    read env n' c (bs ++ rest) dst = .ok (g', rest) := by
+  have h := record_roundtrip env c s hcf n n' m m' g dst bs bs' rest v hw ht he
+  rw [hf] at h
+  rcases h with h | h
+  · exact h
+  · exact absurd h hnf
 
 /-- a block payload is the concatenation of its records' encodings, so the records of a block decode
 one after the other: after the first record the reader stands exactly at the second -/
@@ -50,5 +66,50 @@ theorem blocks_partition (bs : Nat) (ops : List EncOp) :
 theorem flush_leaves_nothing (cfg : EncCfg) (ops : List EncOp) :
     ∃ w', encRun cfg {} (ops ++ [.flush]) = ({ count := 0, wb := [] }, w', none) :=
   C09.flush_drains cfg ops
+
+/-- **C01, whole files**: for every history of `Encode`/`Flush` calls ended by a `Flush`, every block
+size, every compressor undone by the reader's decompressor, every block payload of representable length, every record decoder that decodes each
+written record exactly (`record_roundtrip` is that fact for the codecs the library builds), the file
+the writer produced is read back as the written records — same number, same order, same values —
+and reading succeeds. No hypothesis mentions the file's bytes. -/
+theorem file_roundtrip {α ε : Type} (cfg : EncCfg) (ops : List EncOp)
+    {X : File.Ext α} {fuel : Nat} {H : File.Header} {sel : File.CodecSel} {rc : File.RecCodec α}
+    (hh : File.ValidHeader X fuel cfg.header H sel rc) (hs : H.sync = cfg.sync)
+    (hcomp : ∀ x, File.decompress X sel (cfg.compress x) = .ok x)
+    (hsmall : ∀ blk ∈ (specPart cfg.blockSize (ops ++ [.flush]) []).1, (cfg.compress blk.flatten).length ≤ File.maxLen)
+    (dec : Bytes → α) (hdec : ∀ r ∈ encodings ops, ∀ rest, rc.decode (r ++ rest) = .ok (dec r, rest))
+    (hn : (encodings ops).length < fuel) (hn63 : (encodings ops).length < 2 ^ 63)
+    (cb : Nat → Option ε) (hcb : ∀ i, cb i = none) :
+    ∃ s' w', encRun cfg {} (ops ++ [.flush]) = (s', w', none) ∧ s'.count = 0 ∧ s'.wb = [] ∧
+      File.readFile X fuel cb w'.accepted = ⟨(encodings ops).map dec, .ok⟩ :=
+  EndToEnd.write_then_read cfg ops hh hs hcomp hsmall dec hdec hn hn63 cb hcb
+
+/-! ### Non-vacuity: a concrete history, written and read by the two models -/
+
+def exCfg : EncCfg := { blockSize := 2, compress := id, sync := C07.exSync, header := C07.exHdr }
+def exOps : List EncOp := [.encode [1], .flush, .encode [2], .encode [3], .encode [4]]
+
+example : File.readFile C07.exX 9 (fun _ => (none : Option Unit)) (encRun exCfg {} (exOps ++ [.flush])).2.1.accepted
+    = ⟨[1, 2, 3, 4], .ok⟩ := by decide +kernel
+
+/-- the hypotheses of `file_roundtrip` are met by that history -/
+example : ∃ s' w', encRun exCfg {} (exOps ++ [.flush]) = (s', w', none) ∧ s'.count = 0 ∧ s'.wb = [] ∧
+    File.readFile C07.exX 9 (fun _ => (none : Option Unit)) w'.accepted = ⟨[1, 2, 3, 4], .ok⟩ := by
+  have hh : File.ValidHeader C07.exX 9 exCfg.header
+      { «meta» := File.metaOf [[(File.kSchema, [0x22]), (File.kCodec, File.vNull)]], sync := C07.exSync } .null
+      { decode := fun bs => match bs with | [] => .err | b :: r => .ok (b, r) } := by
+    refine C07.valid_mkHeader C07.exX _ C07.exSync 9 ?_ (by decide) (by decide) .null _ (by decide) ⟨[0x22], by decide, rfl⟩
+    intro es hes
+    simp only [List.mem_singleton] at hes
+    subst hes
+    refine ⟨by simp, by decide, ?_⟩
+    intro kv hkv
+    simp only [List.mem_cons, List.not_mem_nil, or_false] at hkv
+    rcases hkv with rfl | rfl <;> exact ⟨by decide, by decide⟩
+  have := file_roundtrip (ε := Unit) exCfg exOps hh rfl (fun x => rfl)
+    (by decide) (fun r => r.headD 0)
+    (by intro r hr rest; simp [exOps, encodings] at hr; rcases hr with rfl | rfl | rfl | rfl <;> rfl)
+    (by decide) (by decide) (fun _ => none) (fun _ => rfl)
+  simpa [exOps, encodings] using this
 
 end Avro.C01
